@@ -67,12 +67,28 @@ static void check_tables(vh::Ctx& c, const GraphState& st, size_t n, const std::
                 c.fail("bfs-level-order", tag + " node " + std::to_string(i) + " (level " + std::to_string(level_of[i]) + ") is not in a later level than its receiver " + std::to_string(r) + " (level " + std::to_string(level_of[r]) + ")");
         }
     (void) bpos;
-    // storage order ("any" traversal): identity with a single level
-    for (size_t k = 0; k < n; ++k)
-        if (st.storage_indices[k] != k)
-            c.fail("storage-indices", tag + " entry " + std::to_string(k));
-    if (st.any_levels.size() != 2 || st.any_levels[0] != 0 || st.any_levels[1] != n)
-        c.fail("any-levels", tag);
+    // storage order (the "any" traversal, not named in the statement but used by the same level-
+    // parallel kernels): whatever order and level partition the library chooses, it has to be a
+    // permutation of all nodes cut into non-empty levels from 0 to N
+    {
+        std::vector<uint8_t> seen(n, 0);
+        bool perm = st.storage_indices.size() == n;
+        for (size_t k = 0; perm && k < n; ++k)
+        {
+            size_t i = st.storage_indices[k];
+            if (i >= n || seen[i])
+                perm = false;
+            else
+                seen[i] = 1;
+        }
+        if (!perm)
+            c.fail("storage-indices", tag + " the storage order is not a permutation of all nodes");
+        bool ok = st.any_levels.size() >= 2 && st.any_levels.front() == 0 && st.any_levels.back() == n;
+        for (size_t k = 1; ok && k < st.any_levels.size(); ++k)
+            ok = st.any_levels[k] > st.any_levels[k - 1];
+        if (!ok)
+            c.fail("any-levels", tag + " the level boundaries of the storage order do not run from 0 to N in non-empty levels");
+    }
 }
 
 static void check_case(vg::Src& s, vh::Ctx& c)
